@@ -27,149 +27,31 @@ META = {
 KINDS = ["str", "bool", "int", "float", "none", "list", "dict"]
 
 
-def writer_table(an, f):
-    """kind -> (tag, test node) from the isinstance chain of _to_element"""
-    g = an.cfg(f)
-    ft = an.ft(f)
-    vparam = f.positional_params[2]
-    out = {}
-    order = []
-    for t in g.nodes:
-        if t.kind != "test":
-            continue
-        kind = None
-        e = t.ast
-        if isinstance(e, ast.Call) and ast.unparse(e.func) == "isinstance" and isinstance(e.args[0], ast.Name) and e.args[0].id == vparam:
-            spec = ft.class_spec(e.args[1], ft.env_in.get(t) or {})
-            if spec and len(spec) == 1:
-                kind = spec[0]
-        elif isinstance(e, ast.Compare) and isinstance(e.ops[0], ast.Is) and isinstance(e.left, ast.Name) and e.left.id == vparam \
-                and isinstance(e.comparators[0], ast.Constant) and e.comparators[0].value is None:
-            kind = "none"
-        if kind is None:
-            continue
-        order.append((kind, t))
-        for s, lbl in t.succ:
-            if lbl is True:
-                seen = g.reachable([s], may_raise=lambda n: False, stop=lambda n: n.kind == "test")
-                for n in seen:
-                    if n.kind == "assign" and isinstance(n.ast, ast.Assign):
-                        for tg in n.ast.targets:
-                            if isinstance(tg, ast.Subscript) and isinstance(tg.slice, ast.Constant) and tg.slice.value == "type" \
-                                    and isinstance(n.ast.value, ast.Constant):
-                                out[kind] = (n.ast.value.value, t, seen)
-                    if n.kind == "call" and isinstance(n.ast.func, ast.Attribute) and n.ast.func.attr == "set" and len(n.ast.args) == 2 \
-                            and isinstance(n.ast.args[0], ast.Constant) and n.ast.args[0].value == "type" and isinstance(n.ast.args[1], ast.Constant):
-                        out[kind] = (n.ast.args[1].value, t, seen)
-    return out, order
-
-
-def reader_table(an, f):
-    """tag -> set of kinds assigned in that branch of _from_element"""
-    g = an.cfg(f)
-    out = {}
-    for t in g.nodes:
-        if t.kind == "test" and isinstance(t.ast, ast.Compare) and isinstance(t.ast.ops[0], ast.Eq) and isinstance(t.ast.comparators[0], ast.Constant) \
-                and isinstance(t.ast.comparators[0].value, str) and isinstance(t.ast.left, ast.Name):
-            tag = t.ast.comparators[0].value
-            kinds = set()
-            for s, lbl in t.succ:
-                if lbl is True:
-                    seen = g.reachable([s], may_raise=lambda n: True, stop=lambda n: n.kind == "test" and isinstance(n.ast, ast.Compare)
-                                       and isinstance(n.ast.ops[0], ast.Eq) and isinstance(n.ast.left, ast.Name) and n.ast.left.id == t.ast.left.id)
-                    for n in seen:
-                        if n.kind == "assign" and isinstance(n.ast, ast.Assign):
-                            v = n.ast.value
-                            if isinstance(v, ast.Constant):
-                                kinds.add({bool: "bool", type(None): "none", str: "str", int: "int", float: "float"}.get(type(v.value), "?"))
-                            elif isinstance(v, ast.Name) and v.id == "text":
-                                kinds.add("str")
-                            elif isinstance(v, ast.Call) and ast.unparse(v.func) in ("int", "float"):
-                                kinds.add(ast.unparse(v.func))
-                            elif isinstance(v, (ast.List, ast.ListComp)):
-                                kinds.add("list")
-                            elif isinstance(v, (ast.Dict, ast.DictComp)):
-                                kinds.add("dict")
-            out[tag] = (kinds, t)
-    return out
-
-
 def check(ctx):
     an, model = ctx.an, ctx.model
     xml = model.cls("XmlConfigFormat")
     te, fe = model.method("XmlConfigFormat", "_to_element"), model.method("XmlConfigFormat", "_from_element")
-    wt, order = writer_table(an, te)
-    rt = reader_table(an, fe)
-    # ---------------------------------------------------------------- C04.1
-    for kind in KINDS:
-        if kind not in wt:
-            ctx.ob("xml.writer-covers", te, "writer branch for %s" % kind, False,
-                   "the XML writer has no branch for %s values: they are rejected or written under another kind's tag" % kind)
-            continue
-        tag = wt[kind][0]
-        ctx.ob("xml.writer-covers", te, "writer branch for %s" % kind, True, "%s values are tagged %r" % (kind, tag), node=wt[kind][1])
-        if tag not in rt:
-            ctx.ob("xml.tags-agree", fe, "reader branch for tag %r" % tag, False,
-                   "the writer tags %s values with %r but the reader has no branch for it: they come back as text" % (kind, tag))
-            continue
-        kinds = rt[tag][0]
-        ok = kind in kinds
-        ctx.ob("xml.tags-agree", fe, "tag %r: written for %s, read as %s" % (tag, kind, sorted(kinds)), ok,
-               "the reader branch for %r produces a %s (lenient text fallbacks allowed)" % (tag, kind) if ok else
-               "the reader branch for %r produces %s, never a %s: the type is not preserved" % (tag, sorted(kinds), kind), node=rt[tag][1])
-    wtags = sorted(v[0] for v in wt.values())
-    ctx.ob("xml.tags-distinct", te, "tags %s" % wtags, len(set(wtags)) == len(wtags), "one tag per kind" if len(set(wtags)) == len(wtags) else
-           "two kinds share a tag: %s" % wtags)
-    extra = sorted(set(rt) - set(wtags))
-    ctx.ob("xml.reader-no-orphans", fe, "reader tags without writer", True, "reader-only tags: %s (harmless)" % extra, nontrivial=False)
-
-    # ---------------------------------------------------------------- C04.2
+    from .xmlfmt import check_xml_tables
+    wtag, wspec, rspec = check_xml_tables(ctx, an, model)
     g = an.cfg(te)
-    for i, (ka, ta) in enumerate(order):
-        for kb, tb in order:
-            if ka == kb or ka == "none" or kb == "none":
-                continue
-            if an.types.is_sub(kb, ka) and kb != ka:
-                # kb is a subclass of ka: its test must come first
-                p = g.path(ta, lambda n, tb=tb: n is tb, may_raise=lambda n: False, from_successors=True)
-                ctx.ob("dispatch.subclass-first", te, "isinstance(value, %s) before isinstance(value, %s)" % (kb, ka), p is None,
-                       "%s is tested before its base class %s" % (kb, ka) if p is None else
-                       "%s is tested after its base class %s: %s values are written as %s" % (kb, ka, kb, ka), node=tb)
-    last_raise = falls_through(an, te) is False and any(n.kind == "raise" for n in g.nodes)
-    # the raise must be on the path where every test failed
-    p = g.path(g.entry, lambda n: n.kind == "raise", may_raise=lambda n: False,
-               edge_filter=lambda a, b, lbl: not (a.kind == "test" and lbl is True and any(a is t for _, t in order)))
-    ctx.ob("dispatch.rejecting", te, "non-basic value -> raise", p is not None,
-           "a value of no plain-data kind ends in raise" if p is not None else "a non-basic value is silently written as something else")
-    # naming of children
-    okl = okd = False
-    for n in g.nodes:
-        if n.kind == "call" and te in an.callees(te, n) and n.ast.args:
-            a0 = n.ast.args[0]
-            if isinstance(a0, ast.Constant) and a0.value == "item":
-                okl = True
-            if isinstance(a0, ast.Name) and any(k == "iter" for k, _ in value_sources(te, a0, n)):
-                okd = True
-    gf = an.cfg(fe)
-    rd = any(isinstance(x, ast.Assign) and any(isinstance(t, ast.Subscript) and isinstance(t.slice, ast.Attribute) and t.slice.attr == "tag"
-                                                 for t in x.targets) for x in ast.walk(fe.node))
-    rl = any(isinstance(x, ast.Call) and isinstance(x.func, ast.Attribute) and x.func.attr == "append" for x in ast.walk(fe.node))
-    ctx.ob("xml.children-naming", xml, "list items / map entries", okl and okd and rd and rl,
-           "map entries are written under their key and read back by tag; list items are appended in document order" if okl and okd and rd and rl else
-           "children naming differs between writer and reader (writer list:%s dict:%s, reader dict:%s list:%s)" % (okl, okd, rd, rl))
     # boolean literals are tokens the reader understands
     BF = model.cls("BoolField")
     T = model.const_eval(BF.module, BF.class_attrs["TRUE_VALUES"], BF)
     F = model.const_eval(BF.module, BF.class_attrs["FALSE_VALUES"], BF)
     lits = None
-    if "bool" in wt:
-        branch = getattr(wt["bool"][1].ast, "_parent", None)
-        body = branch.body if isinstance(branch, ast.If) else []
-        for st in body:
-            for x in ast.walk(st):
-                if isinstance(x, ast.Assign) and isinstance(x.value, ast.IfExp) and isinstance(x.value.body, ast.Constant) \
-                        and isinstance(x.value.orelse, ast.Constant):
-                    lits = (x.value.body.value, x.value.orelse.value)
+    spb = wspec.get("bool")
+    if spb is not None and "bool" in wtag:
+        for n in g.nodes:
+            if n.kind == "assign" and n in spb.normal and isinstance(n.ast, ast.Assign) and any(
+                    isinstance(t, ast.Attribute) and t.attr == "text" for t in n.ast.targets):
+                v = n.ast.value
+                if isinstance(v, ast.IfExp) and isinstance(v.body, ast.Constant) and isinstance(v.orelse, ast.Constant):
+                    lits = (v.body.value, v.orelse.value)
+                    if isinstance(v.test, ast.UnaryOp) and isinstance(v.test.op, ast.Not):
+                        lits = (lits[1], lits[0])
+                elif isinstance(v, ast.Call) and isinstance(v.func, ast.Attribute) and v.func.attr == "lower" and isinstance(v.func.value, ast.Call) \
+                        and ast.unparse(v.func.value.func) == "str":
+                    lits = ("true", "false")
     lowers = any(isinstance(x, ast.Call) and isinstance(x.func, ast.Attribute) and x.func.attr in ("lower", "casefold") for x in ast.walk(fe.node))
     norm = (lambda x: x.lower()) if lowers else (lambda x: x)
     okb = lits is not None and all(isinstance(x, str) for x in lits) and norm(lits[0]) in T and norm(lits[1]) in F
@@ -177,46 +59,33 @@ def check(ctx):
            "the boolean text written (%s) is not what the reader maps back to True/False" % (lits,))
 
     # string payload is written and read unmodified
-    from engine.defuse import reaching_defs
-    rdefs = reaching_defs(fe)
-    gfe = an.cfg(fe)
-    for tag, (kinds, tnode) in rt.items():
-        if tag != wt.get("str", (None,))[0]:
-            continue
-        for s2, lbl in tnode.succ:
-            if lbl is not True:
-                continue
-            for n in gfe.reachable([s2], may_raise=lambda x: False, stop=lambda x: x.kind == "test"):
-                if n.kind == "assign" and isinstance(n.ast, ast.Assign) and isinstance(n.ast.value, ast.Name):
-                    bad = None
-                    for d in rdefs.reaching(n, n.ast.value.id):
-                        v = d.value
-                        if d.kind != "assign" or v is None:
-                            bad = "unknown origin"
-                            continue
-                        is_text = any(isinstance(x, ast.Attribute) and x.attr == "text" for x in ast.walk(v)) and not any(
-                            isinstance(x, ast.Call) for x in ast.walk(v))
-                        is_empty = isinstance(v, ast.Constant) and v.value == ""
-                        if is_text:
-                            continue
-                        if is_empty:
-                            guards = dominating_guards(an, fe, d.node)
-                            okg = any((isinstance(t.ast, ast.Name) and not tr) or
-                                      (isinstance(t.ast, ast.Compare) and isinstance(t.ast.ops[0], ast.Is) and tr) for t, tr in guards)
-                            if okg:
-                                continue
-                            bad = "replaced by '' at line %s under a condition other than 'no text'" % d.node.lineno
-                        else:
-                            bad = "transformed by `%s`" % ast.unparse(v)[:40]
-                    ctx.ob("xml.str-payload-verbatim", fe, n.ast, bad is None,
-                           "a string element decodes to its text exactly ('' when the element has none)" if bad is None else
-                           "the text of a string element is %s before it becomes the value: strings do not survive the round trip" % bad, node=n)
-    for n in g.nodes:
-        if n.kind == "assign" and isinstance(n.ast, ast.Assign) and any(isinstance(t, ast.Attribute) and t.attr == "text" for t in n.ast.targets):
-            if "str" in wt and n in wt["str"][2]:
-                okw = all(k == "param" for k, _ in value_sources(te, n.ast.value, n))
+    sps = wspec.get("str")
+    if sps is not None and "str" in wtag:
+        seen_text = False
+        for n in g.nodes:
+            if n.kind == "assign" and n in sps.normal and isinstance(n.ast, ast.Assign) and any(
+                    isinstance(t, ast.Attribute) and t.attr == "text" for t in n.ast.targets):
+                seen_text = True
+                srcs = sps.sources(n.ast.value, n)
+                okw = bool(srcs) and all(k == "param" for k, _ in srcs)
                 ctx.ob("xml.str-payload-verbatim", te, n.ast, okw, "a string is written as the element text unchanged" if okw else
                        "the writer transforms string values before writing them", node=n)
+        if not seen_text:
+            ctx.ob("xml.str-payload-verbatim", te, "ele.text = value", False, "a string value is never written as the element text")
+    # scalar payloads: what is written for int/float is str(value)
+    for kind in ("int", "float"):
+        spk = wspec.get(kind)
+        if spk is None or kind not in wtag:
+            continue
+        for n in g.nodes:
+            if n.kind == "assign" and n in spk.normal and isinstance(n.ast, ast.Assign) and any(
+                    isinstance(t, ast.Attribute) and t.attr == "text" for t in n.ast.targets):
+                v = n.ast.value
+                srcs = spk.sources(v, n)
+                okw = all(k == "expr" and isinstance(p, ast.Call) and isinstance(p.func, ast.Name) and p.func.id in ("str", "repr") and len(p.args) == 1
+                          and all(k2 == "param" for k2, _ in spk.sources(p.args[0], n)) for k, p in srcs) and bool(srcs)
+                ctx.ob("xml.scalar-payload", te, n.ast, okw, "%s values are written as str(value), which %s() parses back" % (kind, kind) if okw else
+                       "the text written for %s values is not str(value)" % kind, node=n)
 
     # ---------------------------------------------------------------- C04.3
     loads, dumps = model.method("XmlConfigFormat", "loads"), model.method("XmlConfigFormat", "dumps")
@@ -236,7 +105,7 @@ def check(ctx):
                             okr = True
         ctx.ob("xml.root-tag-checked", loads, n.ast, okr, "decoding starts only when root.tag == self.root_tag; otherwise raise" if okr else
                "a document with the wrong root tag is decoded anyway", node=n)
-        forced = len(n.ast.args) >= 2 and isinstance(n.ast.args[1], ast.Constant) and n.ast.args[1].value == wt.get("dict", (None,))[0]
+        forced = len(n.ast.args) >= 2 and isinstance(n.ast.args[1], ast.Constant) and n.ast.args[1].value == wtag.get("dict")
         ctx.ob("xml.root-is-map", loads, n.ast, forced, "the root element is decoded as a map" if forced else "the root element is not decoded as a map", node=n)
     gd = an.cfg(dumps)
     okw = any(n.kind == "call" and te in an.callees(dumps, n) and n.ast.args and isinstance(n.ast.args[0], ast.Attribute) and n.ast.args[0].attr == "root_tag"
@@ -245,40 +114,8 @@ def check(ctx):
            "the writer does not use self.root_tag for the root element")
 
     # ---------------------------------------------------------------- C04.4 YAML
-    yd, yl = model.method("YamlConfigFormat", "dumps"), model.method("YamlConfigFormat", "loads")
-    wrap = [x for x in ast.walk(yd.node) if isinstance(x, ast.Dict) and len(x.keys) == 1 and isinstance(x.keys[0], ast.Attribute) and x.keys[0].attr == "root_key"]
-    unwrap = [x for x in ast.walk(yl.node) if isinstance(x, ast.Subscript) and isinstance(x.slice, ast.Attribute) and x.slice.attr == "root_key"]
-    sym = bool(wrap) == bool(unwrap)
-    ctx.ob("yaml.root-key-symmetric", yl, "wrap in dumps <-> unwrap in loads", sym,
-           ("root_key wraps the tree on dumps and is unwrapped on loads" if wrap else "no root key handling on either side") if sym else
-           "the YAML root key is %s" % ("wrapped on dumps but never unwrapped on loads" if wrap else "unwrapped on loads but never written"))
-    if wrap:
-        gy = an.cfg(yd)
-        okg = False
-        for n in gy.nodes:
-            if n.kind == "assign" and any(w is n.ast.value for w in wrap):
-                okg = any(tr and isinstance(t.ast, ast.Attribute) and t.ast.attr == "root_key" for t, tr in dominating_guards(an, yd, n))
-        ctx.ob("yaml.wrap-only-with-root-key", yd, wrap[0], okg, "wrapping happens only when a root key is configured" if okg else
-               "the tree is wrapped although no root key is configured")
-        # the wrapped tree is what is dumped
-        okd = False
-        for n in gy.nodes:
-            if n.kind == "call" and ast.unparse(n.ast.func).endswith("dump") and n.ast.args:
-                srcs = value_sources(yd, n.ast.args[0], n)
-                okd = any(k == "expr" and pl is wrap[0] for k, pl in srcs) and any(k == "param" for k, pl in srcs)
-        ctx.ob("yaml.dumps-wrapped-tree", yd, "yaml.dump(tree)", okd, "dumps serialises the (possibly wrapped) tree" if okd else "dumps does not serialise the wrapped tree")
-    if unwrap:
-        gl = an.cfg(yl)
-        for n in gl.nodes:
-            if n.kind == "subscript" and n.ast in unwrap:
-                okg = any(tr and isinstance(t.ast, ast.Attribute) and t.ast.attr == "root_key" for t, tr in dominating_guards(an, yl, n))
-                ctx.ob("yaml.unwrap-only-with-root-key", yl, n.ast, okg, "unwrapping happens only when a root key is configured" if okg else
-                       "loads indexes the document by root_key although none is configured", node=n)
-        for r in returns_of(an, yl):
-            srcs = value_sources(yl, r.ast.value, r)
-            okr = any(k == "expr" and pl in unwrap for k, pl in srcs)
-            ctx.ob("yaml.returns-unwrapped", yl, r.ast, okr, "returns the unwrapped tree when a root key is configured" if okr else
-                   "the unwrapped tree is computed but not returned", node=r)
+    from .xmlfmt import check_yaml_root
+    check_yaml_root(ctx, an, model)
 
     # ---------------------------------------------------------------- C04.5 registry
     CF = model.cls("ConfigFormat")
@@ -322,6 +159,9 @@ def check(ctx):
     ctx.ob("registry.uses-table", ir, "for name, cls in FORMATS", uses_formats, "the registry is filled from FORMATS" if uses_formats else
            "initialize_registry does not read FORMATS")
 
+    from .xmlfmt import check_documents_verbatim, check_get_constructs
+    check_get_constructs(ctx, an, model)
+    check_documents_verbatim(ctx, an, model)
     # ---------------------------------------------------------------- C04.6 wrappers
     pairs = {"JsonConfigFormat": ("json", "dumps", "loads"), "BsonConfigFormat": ("bson", "dumps", "loads"),
              "PickleConfigFormat": ("pickle", "dumps", "loads"), "YamlConfigFormat": ("yaml", "dump", "load")}
